@@ -307,7 +307,8 @@ fn process_deposits_for_single_pool<C: ContentAddrStore>(
         state.pools.insert(*pool, pool_state);
         liq
     };
-    // divvy up the liqs
+    // divvy up the liqs; the rounded shares may never add up to more than what the pool issued
+    let mut liqs_left = total_liqs;
     deposits.iter_mut().for_each(|deposit| {
         let original_tx = deposit.clone();
         let my_mtsqrt = deposit.outputs[0]
@@ -316,8 +317,9 @@ fn process_deposits_for_single_pool<C: ContentAddrStore>(
             .sqrt()
             .saturating_mul(deposit.outputs[1].value.0.sqrt());
         deposit.outputs[0].denom = pool.liq_token_denom();
-        deposit.outputs[0].value =
-            multiply_ratio(total_liqs, my_mtsqrt, total_mtsqrt).into();
+        let my_liqs = multiply_ratio(total_liqs, my_mtsqrt, total_mtsqrt).min(liqs_left);
+        liqs_left -= my_liqs;
+        deposit.outputs[0].value = my_liqs.into();
         log::debug!(
             "added {} total liquidity out of {}!",
             deposit.outputs[0].value,
